@@ -35,6 +35,8 @@ EXPLANATION = (
   + common.SHARED_CLAUSES['validators'] + common.SHARED_CLAUSES['truthy']
   + " (PRUNE-sites) every `return None` of ISD._process_element is one of the grounds for leaving an element out of a snapshot - inactive at the offset, another region, display=none, the final emptiness rule; any other site, evaluated over every element kind with and without children, drops only what the final rule would drop (never an element with children, never an empty part of a ruby container);"
   + " (COVER-regions) ISD.significant_times, interpreted with the per-region clone and the collector replaced by recorders, gives every region of the document - whatever it specifies, display=none included - its own single-region document and lets the collector visit that region and the body;"
+  + common.SHARED_CLAUSES['timing']
+  + " (FIN-cacheskip, shared with C14) ISD.from_model processes the same regions with and without the SignificantTimes cache for every offset inside a cached document's content interval; (TAB-styles, shared with C03) the table of style properties - inherited or not, initial value, applicability - equals TTML2's, so tts:display is not inherited;"
 )
 RULE_TEXT = "per guard x ordering table, per grid, per call site, per truth table"
 UNDECIDED = ["interval arithmetic under arbitrary nesting as values", "text appears once each, in document order, nothing moved between regions (data dependent)",
@@ -134,11 +136,15 @@ def check_default_region(ctx):
 
 
 def run(ctx):
+  from ..rules import isdrules as _isdr4
+  ctx.floor("FIN-cacheskip", "(cache, offset) samples decided", _isdr4.check_cached_snapshot_calls(ctx), 10)
+  from . import c03 as _c03
+  _c03.check_style_tables(ctx)
   from ..rules import isdrules as _isdr3
   ctx.floor("COVER-regions", "sample documents decided", _isdr3.check_region_docs_cover(ctx), 3)
   from ..rules import isdrules as _isdr
   ctx.floor("PRUNE-sites", "`return None` sites of _process_element", _isdr.check_prune_sites(ctx, ctx.ix.func("ttconv.isd:ISD._process_element")), 4)
-  common.check_shared_helpers(ctx, validators=True, truthy_modules=["ttconv.model", "ttconv.isd"])
+  common.check_shared_helpers(ctx, validators=True, truthy_modules=["ttconv.model", "ttconv.isd"], timing=True)
   ix = ctx.ix
   n = isdrules.check_activity_guards(ctx)
   ctx.floor("CMP-activity", "activity guards", n, 3)
